@@ -1,9 +1,13 @@
 from vlib.core import Check, Family
+from vlib.gentie import gentie_step
 
 CHECK = Check(
     "C19",
     props_modules=["OW.Props.C19"],
     families=[Family("DATE")],
+    # tie A: dates.go (dateGenerator, _dayOfYear, daysInMonth, leapYear, DAYS_IN_MONTH) is REGENERATED as Lean on every run
+    # (harness/cmd/owtranslate) and proved equal to OW/Util/Dates.lean (OW/Props/GenTieDates.lean: gen_eq_DateGenerator)
+    pre_steps=[gentie_step],
     level="proof",
     trusted=[
         "hand-written Lean model OW/Util/Dates.lean of models/functions/dates.go, tied to the code by the DATE "
